@@ -10,6 +10,7 @@ import (
 	"sort"
 	"strings"
 
+	"github.com/np-guard/netpol-analyzer/pkg/cli"
 	"github.com/np-guard/netpol-analyzer/pkg/netpol/connlist"
 	"github.com/np-guard/netpol-analyzer/pkg/netpol/diff"
 	"github.com/np-guard/netpol-analyzer/pkg/netpol/internal/common"
@@ -273,6 +274,29 @@ func execWPair(c *Sx, env *execEnv) (*Sx, []Violation) {
 		rep("C08", k, d)
 	}
 	env.count("shuffle-eval-compared")
+	// the eval command fills its engine object by object (InsertObject), from the Pod manifests only
+	var podObjs []*PodObj
+	for _, o := range wa.Objs {
+		if o.Kind == "pod" {
+			podObjs = append(podObjs, o.Pod)
+		}
+	}
+	if len(podObjs) >= 2 {
+		pa, pb := podObjs[0], podObjs[len(podObjs)-1]
+		for _, q := range [][2]string{{"80", "tcp"}, {"53", "udp"}, {"8080", "tcp"}} {
+			oa, ea := cli.VerifRun(evalArgs(dirA, pa.Name, pa.NS, pb.Name, pb.NS, "", "", q[0], q[1]))
+			ob, eb := cli.VerifRun(evalArgs(dirB, pa.Name, pa.NS, pb.Name, pb.NS, "", "", q[0], q[1]))
+			if (ea == nil) != (eb == nil) || oa != ob {
+				k := "shuffle-changes-eval-command"
+				if namedPortMayMeetIPGo(wa) && ((ea != nil && strings.Contains(ea.Error(), "named port")) || (eb != nil && strings.Contains(eb.Error(), "named port"))) {
+					k = "shuffle-changes-eval-named-port-error"
+				}
+				rep("C08", k, fmt.Sprintf("eval %s/%s -> %s/%s %s/%s: one layout prints %q (error %v), the other %q (error %v)", pa.NS, pa.Name, pb.NS, pb.Name, q[1], q[0], firstLine(oa), ea, firstLine(ob), eb))
+				break
+			}
+			env.count("shuffle-eval-command-compared")
+		}
+	}
 	}
 	if !ra.ok || !rb.ok {
 		if kind == "shuffle" {
@@ -325,6 +349,10 @@ func execWPair(c *Sx, env *execEnv) (*Sx, []Violation) {
 				env.count("shuffle-output:" + f)
 				if (la.err == nil) != (lb.err == nil) {
 					rep("C08", "shuffle-changes-output", fmt.Sprintf("format %s exposure=%v: one layout fails (%v), the other does not (%v)", f, exposure, la.err, lb.err))
+				} else if la.err == nil && la.out != lb.out && exposure && hasMultiValueReq(wa) && sortValuesLists(la.out) == sortValuesLists(lb.out) {
+					// the only difference is the order of the values inside `Values:[…]` of a printed requirement
+					rep("C08", "shuffle-changes-exposure-values-order", fmt.Sprintf("format %s exposure=%v: the exposure lines differ only in the order of the values of an In / NotIn requirement; first difference: %s",
+						f, exposure, firstDiff(strings.Split(la.out, "\n"), strings.Split(lb.out, "\n"))))
 				} else if la.err == nil && la.out != lb.out {
 					rep("C08", "shuffle-changes-output", fmt.Sprintf("format %s exposure=%v: the output differs after permuting documents / files / rules; first difference: %s",
 						f, exposure, firstDiff(strings.Split(la.out, "\n"), strings.Split(lb.out, "\n"))))
@@ -431,12 +459,32 @@ func genReexpress(r *Rng, id int, tier string) *Sx {
 func genShuffle(r *Rng, id int, tier string) *Sx {
 	// namedOnIPPct 0: whether the documented named-port-on-IP error is raised depends on the rule order
 	// (a rule allowing everything ends the walk before the named port is met); kept out of this relation
-	cfg := &genCfg{anp: r.P(50), banp: true, pods: true, ingress: r.P(25), podPortsVary: true, complementPct: 8, namedOnIPPct: 8, maxNP: 4, maxWl: 5}
+	cfg := &genCfg{anp: r.P(50), banp: true, pods: true, ingress: r.P(25), podPortsVary: true, complementPct: 8, namedOnIPPct: 8, samePrioPct: 12, maxNP: 4, maxWl: 5}
 	a := genWorld(r, cfg)
 	b := cloneWorld(a)
 	Shuffle(r, b.Objs)
+	// the values of an In / NotIn requirement are a set: written in another order in B
+	shuffleVals := func(s *Sel) {
+		if s == nil {
+			return
+		}
+		for i := range s.ME {
+			if len(s.ME[i].Vals) > 1 && r.P(50) {
+				Shuffle(r, s.ME[i].Vals)
+			}
+		}
+	}
 	for _, o := range b.Objs {
 		if o.Kind == "np" {
+			shuffleVals(&o.Np.PodSel)
+			for _, rules := range [][]NPRule{o.Np.Ingress, o.Np.Egress} {
+				for i := range rules {
+					for j := range rules[i].Peers {
+						shuffleVals(rules[i].Peers[j].PodSel)
+						shuffleVals(rules[i].Peers[j].NsSel)
+					}
+				}
+			}
 			Shuffle(r, o.Np.Ingress)
 			Shuffle(r, o.Np.Egress)
 			for i := range o.Np.Ingress {
@@ -485,6 +533,61 @@ func namedPortMayMeetIPGo(w *World) bool {
 			}
 			if named && ip {
 				return true
+			}
+		}
+	}
+	return false
+}
+
+var valuesList = regexp.MustCompile(`Values:\[([^\]]*)\]`)
+
+// sortValuesLists rewrites every `Values:[a b c]` of a printed requirement with its values in sorted order
+func sortValuesLists(s string) string {
+	n := valuesList.ReplaceAllStringFunc(s, func(m string) string {
+		vs := strings.Fields(m[len("Values:[") : len(m)-1])
+		sort.Strings(vs)
+		return "Values:[" + strings.Join(vs, " ") + "]"
+	})
+	// the lines are sorted by their text, so another order of the values may also move a line
+	// and two spellings of one requirement are two entries with two lines (one line twice when they are spelled alike)
+	lines := strings.Split(n, "\n")
+	sort.Strings(lines)
+	var uniq []string
+	for i, l := range lines {
+		if i == 0 || l != lines[i-1] {
+			uniq = append(uniq, l)
+		}
+	}
+	return strings.Join(uniq, "\n")
+}
+
+// hasMultiValueReq: some NetworkPolicy selector holds a requirement with two or more values
+func hasMultiValueReq(w *World) bool {
+	multi := func(s *Sel) bool {
+		if s == nil {
+			return false
+		}
+		for _, q := range s.ME {
+			if len(q.Vals) > 1 {
+				return true
+			}
+		}
+		return false
+	}
+	for _, o := range w.Objs {
+		if o.Kind != "np" {
+			continue
+		}
+		if multi(&o.Np.PodSel) {
+			return true
+		}
+		for _, rules := range [][]NPRule{o.Np.Ingress, o.Np.Egress} {
+			for _, r := range rules {
+				for _, p := range r.Peers {
+					if multi(p.PodSel) || multi(p.NsSel) {
+						return true
+					}
+				}
 			}
 		}
 	}
